@@ -515,9 +515,35 @@ public:
   {
     // first deleting the node in the graph
     getGraph()->deleteNode(getNodeGraphid(nodeObject));
-    // then forgetting
-    dissociateNode(nodeObject);
+    // then forgetting (the graph has notified deletedNodesUpdate, which has normally done it already)
+    if (hasNode(nodeObject))
+      dissociateNode(nodeObject);
+    forgetNodeIndex_(nodeObject);
   }
+
+private:
+  /**
+   * Forget the index of an object whose node or edge has been deleted.
+   */
+  void forgetNodeIndex_(Nref nodeObject)
+  {
+    auto found = NToIndex_.find(nodeObject);
+    if (found == NToIndex_.end())
+      return;
+    indexToN_.at(found->second) = 00;
+    NToIndex_.erase(found);
+  }
+
+  void forgetEdgeIndex_(Eref edgeObject)
+  {
+    auto found = EToIndex_.find(edgeObject);
+    if (found == EToIndex_.end())
+      return;
+    indexToE_.at(found->second) = 00;
+    EToIndex_.erase(found);
+  }
+
+public:
 
 
   // /@}
@@ -1485,6 +1511,7 @@ public:
         graphidToE_.at(*currEdge) = 00;
 
         EToGraphid_.erase(edgeObject);
+        forgetEdgeIndex_(edgeObject);
       }
     }
   }
@@ -1503,6 +1530,7 @@ public:
         graphidToN_.at(*currNode) = 00;
 
         NToGraphid_.erase(nodeObject);
+        forgetNodeIndex_(nodeObject);
       }
     }
   }
